@@ -1,6 +1,7 @@
 package main
 
 import (
+	"os/exec"
 	"encoding/json"
 	"flag"
 	"fmt"
@@ -462,6 +463,11 @@ func main() {
 	pid := label
 	exit := 0
 	report := append(append([]*Obligation{}, violations...), undecided...)
+	// Replay: for functions that have an executable form of their contract (replay/harness.json), look for a concrete
+	// failing input on the real code of the tree under check (in-package test injected with -overlay; nothing is written
+	// to the repository). Only run when something is reported, so the unchanged tree pays nothing.
+	os.RemoveAll(filepath.Join(*replayDir, pid)) // replay files of earlier runs of this check are stale
+	found := replaySearch(*repo, *seed, report)
 	for _, o := range report {
 		rp := filepath.Join(*replayDir, pid, mangle(o.Name)+".json")
 		os.MkdirAll(filepath.Dir(rp), 0o755)
@@ -473,9 +479,15 @@ func main() {
 		if o.fv != nil || o.Raw != "" {
 			rep["smt"] = em.Script(o)
 		}
+		suffix := " no-failing-input-found"
+		if fi, ok := found[o.Func]; ok {
+			rep["failing_input"] = fi
+			rep["note"] = "a concrete input on which the real function violates its contract was found by the replay harness (executable form of the contract, hand-translated from the ensures clauses); re-run it with the command in failing_input.replay_cmd"
+			suffix = fmt.Sprintf(" failing-input=%q violated=%q", fi["input"], fi["clause"])
+		}
 		data, _ := json.MarshalIndent(rep, "", " ")
 		os.WriteFile(rp, data, 0o644)
-		fmt.Printf("VIOLATION property=%s replay=%s obligation=%s verdict=%s clause=%q no-failing-input-found\n", pid, rp, o.Name, o.Verdict, o.Text)
+		fmt.Printf("VIOLATION property=%s replay=%s obligation=%s verdict=%s clause=%q%s\n", pid, rp, o.Name, o.Verdict, o.Text, suffix)
 		exit = 1
 	}
 	if broken {
@@ -612,4 +624,49 @@ func splitGoal(goal string) []string {
 		return out
 	}
 	return split(root)
+}
+
+
+// replaySearch runs the replay harness of every reported function that has one and returns, per function, the first
+// failing input found: {"input", "clause", "harness", "replay_cmd"}.
+func replaySearch(repo string, seed int, report []*Obligation) map[string]map[string]any {
+	out := map[string]map[string]any{}
+	if len(report) == 0 {
+		return out
+	}
+	var table map[string]struct{ Pkg, File, Run string }
+	data, err := os.ReadFile("/verif/replay/harness.json")
+	if err != nil || json.Unmarshal(data, &table) != nil {
+		return out
+	}
+	done := map[string]bool{}
+	for _, o := range report {
+		h, ok := table[o.Func]
+		if !ok || done[o.Func] {
+			continue
+		}
+		done[o.Func] = true
+		ov, _ := os.CreateTemp("", "govc-overlay-*.json")
+		target := filepath.Join(repo, h.Pkg, "zz_replay_verif_test.go")
+		fmt.Fprintf(ov, `{"Replace": {%q: %q}}`, target, filepath.Join("/verif/replay", h.File))
+		ov.Close()
+		cmd := exec.Command("go", "test", "-overlay", ov.Name(), "-vet=off", "-count=1", "-timeout", "120s", "-run", h.Run, "./"+h.Pkg+"/")
+		cmd.Dir = repo
+		cmd.Env = append(os.Environ(), fmt.Sprintf("VERIF_SEED=%d", seed))
+		res, _ := cmd.CombinedOutput()
+		os.Remove(ov.Name())
+		for _, line := range strings.Split(string(res), "\n") {
+			if strings.HasPrefix(line, "REPLAY-FAIL ") {
+				rest := strings.TrimPrefix(line, "REPLAY-FAIL ")
+				parts := strings.SplitN(rest, " :: ", 2)
+				fnAndInput := strings.SplitN(parts[0], " ", 2)
+				if len(parts) == 2 && len(fnAndInput) == 2 {
+					out[o.Func] = map[string]any{"input": fnAndInput[1], "clause": parts[1], "harness": "/verif/replay/" + h.File,
+						"replay_cmd": fmt.Sprintf("cd %s && VERIF_SEED=%d go test -overlay <{%q: %q}> -vet=off -count=1 -run '%s' ./%s/", repo, seed, target, "/verif/replay/"+h.File, h.Run, h.Pkg)}
+				}
+				break
+			}
+		}
+	}
+	return out
 }
